@@ -1,5 +1,5 @@
 SPECIFICATION Spec
 CONSTANTS MaxLen = 4 Wide = TRUE
-  Kinds <- AllKinds
+  Kinds <- ThoroughKinds
 INVARIANT Emitted
 CHECK_DEADLOCK FALSE
